@@ -35,18 +35,18 @@ Attach(st) == LET n == Len(st.items)
 AttachOrDetach(st) == IF CanTry(st) THEN Attach(st) ELSE Detach(st)
 
 (* add_item *)
-AddItem(c, st, txt) ==
+AddItem(c, st, body) ==
   LET s1 == IF c.noFront THEN Detach(st) ELSE st
       before == IF c.noFront \/ st.free = <<>> THEN NIL
                 ELSE LET sep == IF c.noDetach THEN SPACE ELSE LINE
                          d == Cat(Inter(st.free, sep), sep)
                      IN IF c.noDetach THEN d ELSE Group(d)
-  IN [s1 EXCEPT !.items = Append(@, [t |-> "item", body |-> Cat(before, T(txt)), after |-> NIL, endsLC |-> FALSE]),
+  IN [s1 EXCEPT !.items = Append(@, [t |-> "item", body |-> Cat(before, body), after |-> NIL, endsLC |-> FALSE]),
                 !.free = <<>>, !.real = @ + 1, !.canAttach = TRUE]
 
 (* process_trivia, one arm per token kind *)
 Step(c, st, ev) ==
-  CASE ev.e = "item" -> AddItem(c, st, ev.txt)
+  CASE ev.e = "item" -> AddItem(c, st, IF "doc" \in DOMAIN ev THEN ev.doc ELSE T(ev.txt))     \* an item is any Doc
     [] ev.e \in {"bc", "lc"} ->
          [st EXCEPT !.hasCmt = TRUE, !.hasLine = @ \/ ev.e = "lc",
                     !.fold = IF ev.e = "lc" THEN "never" ELSE @,
